@@ -103,7 +103,7 @@ func (r *rs) r2() {
 		pos    token.Pos
 	}
 	dec := map[int64][]arm{}
-	gd := cfgq.Of(c.Program, decodeResp)
+	gd := flow.GraphOf(c.Program, decodeResp)
 	depth := param(info, decodeResp, 0)
 	var fallback struct {
 		n, deep, opaque, knownTag int
@@ -154,9 +154,9 @@ func (r *rs) r2() {
 		}
 		iv := st.IntervalOf(tagTok)
 		mk, called := st.Marks["dec"]
-		if len(ret.Results) == 2 && iv.Lo == iv.Hi && called {
+		if res := dw.Results(ret, st); len(res) == 2 && iv.Lo == iv.Hi && called {
 			a := arm{callee: decByName[mk.Tok], pos: ret.Pos()}
-			if src, ok := dw.Eval(ret.Results[0], st).Src.(ast.Expr); ok && src != nil {
+			if src, ok := res[0].Src.(ast.Expr); ok && src != nil {
 				lit := ast.Unparen(src)
 				if u, isAddr := lit.(*ast.UnaryExpr); isAddr {
 					lit = ast.Unparen(u.X)
@@ -177,7 +177,7 @@ func (r *rs) r2() {
 	// encoder: walk every path of encodeResp (helpers inlined). Per path the walker knows the dynamic
 	// type of the value (type-switch arms, also across two switches over the same operand), the constant
 	// passed to encodeType so far, and which body encoder is then called on the value's field.
-	ge := cfgq.Of(c.Program, encodeResp)
+	ge := flow.GraphOf(c.Program, encodeResp)
 	type earm struct {
 		tag     int64 // -1: no tag written before the payload, -2: a tag that is not a constant
 		callee  *types.Func
@@ -238,7 +238,7 @@ func (r *rs) r2() {
 	for _, t := range tagTable {
 		darms := dec[int64(t.tag)]
 		switch {
-		case len(darms) == 0 && dw.Overflow:
+		case len(darms) == 0 && (dw.Overflow || dw.UnknownCalls > 0):
 			c.Undecidedf("R2.tags", "decode/"+t.typ, decodeResp.Decl.Pos(), "cannot enumerate the paths of decodeResp")
 		case len(darms) == 0:
 			c.Check("R2.tags", "decode/"+t.typ, decodeResp.Decl.Pos(), false, fmt.Sprintf("no path of decodeResp decodes tag %q into &%s{} through %s: otherwise a value encoded as %s comes back as something else", t.tag, t.typ, t.dec, t.typ))
@@ -264,7 +264,7 @@ func (r *rs) r2() {
 		}
 		arms := enc[t.typ]
 		switch {
-		case len(arms) == 0 && (vague > 0 || ew.Overflow):
+		case len(arms) == 0 && (vague > 0 || ew.Overflow || ew.UnknownCalls > 0):
 			c.Undecidedf("R2.tags", "encode/"+t.typ, encodeResp.Decl.Pos(), "cannot find how *%s is written: %d payload calls could not be attributed to a value type", t.typ, vague)
 		case len(arms) == 0:
 			c.Check("R2.tags", "encode/"+t.typ, encodeResp.Decl.Pos(), false, fmt.Sprintf("no path of encodeResp writes a *%s as tag %q followed by %s(x.Value)", t.typ, t.tag, t.enc))
